@@ -486,6 +486,33 @@ func (k *ck) masking(maxTok int) {
 			}
 		}
 	}
+	// the other fields of the pack must not decide whether the password is masked: long SQL texts (the
+	// packs cap the query at 32 KiB) with the short connection strings
+	for _, kd := range kinds[:2] {
+		for _, ver := range []int32{50100, 10101, 10110} {
+			for _, n := range []int{32767, 32768, 32769, 65535} {
+				for _, cs := range []string{"password=" + secret, "a=1 password=" + secret, "a=1;password=" + secret + ";user=u"} {
+					atomic.AddInt64(&k.evals, 1)
+					atomic.AddInt64(&k.nontriv, 1)
+					p, _ := kd.mk(ver, cs)
+					reflect.ValueOf(p).Elem().FieldByName("Sql").SetString(strings.Repeat("s", n))
+					b, err := enc(p)
+					if err != nil {
+						continue
+					}
+					var got string
+					func() {
+						defer func() { recover() }()
+						dec := udp.ToPack(p.GetPackType(), ver, b)
+						got = reflect.ValueOf(dec).Elem().FieldByName("Dbc").String()
+					}()
+					if strings.Contains(got, secret) {
+						k.viol(kd.name+":"+family(ver)+":password-left:long-sql", fmt.Sprintf("%s v%d with a %d-byte SQL text: connection string %q keeps the password after Process(): %q", kd.name, ver, n, cs, got))
+					}
+				}
+			}
+		}
+	}
 	// information only: forms outside "key=value tokens"
 	for _, cs := range []string{"password = " + secret, "PASSWORD=" + secret, "Password=" + secret + ";a=1"} {
 		p := udp.NewUdpTxDbcPackVer(50100)
